@@ -47,7 +47,7 @@ S_<TN_, TA_, EmptyT<TA_>>::wrapUtility(Control& HFSM2_IF_LOG_STATE_METHOD(contro
 	HFSM2_LOG_STATE_METHOD(&Empty::utility,
 						   Method::UTILITY);
 
-	return Utility{};
+	return Utility{1};
 }
 
 #endif
